@@ -72,10 +72,10 @@ def r07_1(ctx, A, pv):
                 l0 = arg_loc(f, t, 0)
                 if decl in SM.IO_WRITE_METHODS and args:
                     if l0 is not None and l0[:2] == (1, A.cw_inner):
-                        inner.append((decl, args, t))
+                        inner.append((decl, args, t, k))
                 elif callee in lib.fns and args:
                     if l0 is not None and l0[:2] == (1, A.cw_sum):
-                        updates.append((callee, args, t))
+                        updates.append((callee, args, t, k))
             rk = ret_kind(p.ret())
             stores = [(loc, st, k, i) for (k, i, loc, st) in p.stores() if loc[:1] == (1,)]
             if mname == 'flush':
@@ -100,10 +100,16 @@ def r07_1(ctx, A, pv):
                 nothing = not updates and not stores and (mname == 'write_all' or (okv is not None and okv == ('const', 0)))
                 ctx.check(R, nothing, '%s:no-inner' % mname, '%s returns Ok on a path that never forwards to the inner writer but still reports/accounts bytes' % mname, fn=f)
                 continue
+            if len(inner) > 1 and all(c[0] in ('std::io::Write::write', 'std::io::Write::write_all') for c in inner) and not any(
+                    inner[0][3] <= u[3] <= inner[1][3] for u in updates) and not any(inner[0][3] <= st[2] <= inner[1][3] for st in stores):
+                # several forwarding calls in one write(): an error from a later one is returned before the bytes accepted by an
+                # earlier one are accounted for, and the caller (write_all on Interrupted) re-submits them
+                ctx.violation(R, '%s:inner-calls' % mname, 'the adapter forwards to the inner writer %d times in one call: bytes accepted by the first call are lost from counter and checksum when a later call fails' % len(inner), fn=f)
+                continue
             if len(inner) != 1 or inner[0][0] not in ('std::io::Write::write', 'std::io::Write::write_all'):
                 ctx.undecided(R, '%s:inner-calls' % mname, '%d inner writer calls (%s) on one success path: not a shape the rule decides' % (len(inner), [c[0] for c in inner]), fn=f)
                 continue
-            decl, iargs, it = inner[0]
+            decl, iargs, it, _k = inner[0]
             at = it.get('span')
             ibase, ioff, ilen = slice_parts(L, iargs[1])
             if ibase != buf or ioff is None or not entails_eq([], ioff, Lin.const(0)):
